@@ -271,6 +271,16 @@ def main(argv=None):
     print("property=%s tier=%s units=%d obligations=%d discharged=%d failed=%d known=%d undecided=%d wall=%.1fs" % (
         prop, tier, len(units), n_ob, n_dis, len(failed), len(known_hits), len(undecided), wall))
     for b in bounded:
+        for kn in b.get("known", []):
+            hit = [k for k in known if k.get("status") == "known" and k.get("property") == prop and k.get("obligation") == kn["id"]]
+            if hit:
+                print("KNOWN-FINDING: property=%s %s" % (prop, hit[0]["what"]))
+                known_hits.append(hit[0])
+            else:
+                path = os.path.join(ROOT, "replays", prop, "bounded_%s.json" % re.sub(r"\W+", "_", kn["id"]))
+                json.dump(dict(property=prop, obligation=kn["id"], replay=dict(reproduced=True, violated=kn.get("examples"))), open(path, "w"), indent=1)
+                print("VIOLATION property=%s replay=%s (bounded stand-in) %s" % (prop, path, kn["id"]))
+                violations.append(kn["id"])
         if b.get("violations"):
             for v in b["violations"]:
                 print("VIOLATION property=%s replay=%s (bounded stand-in)" % (prop, v))
